@@ -28,6 +28,7 @@ var errKVKey = errors.New("invalid encode kv key")
 var errInvalidDBValue = errors.New("invalide db value")
 var ErrBitOverflow = errors.New("bit offset overflowed")
 var errInvalidTTL = errors.New("invalid expire time")
+var errOffsetRange = errors.New("offset is out of range")
 
 func convertRedisKeyToDBKVKey(key []byte) ([]byte, []byte, error) {
 	table, _, _ := extractTableFromRedisKey(key)
@@ -689,6 +690,9 @@ func (db *RockDB) DelIfEQ(ts int64, rawKey []byte, oldV []byte) (int64, error) {
 }
 
 func (db *RockDB) SetRange(ts int64, rawKey []byte, offset int, value []byte) (int64, error) {
+	if offset < 0 {
+		return 0, errOffsetRange
+	}
 	if len(value) == 0 {
 		return 0, nil
 	}
